@@ -373,14 +373,23 @@ def ob_key_forms(n, fmt):
     class FakeB64:
         b16decode = staticmethod(_m_b16decode)
     clean = CleanModel(T._clean_re)
+    from vlib.instrument import instrument
+    grouper, _ = instrument(T.group_string, opts=("join",))
     checked = 0
     with patched((T, "to_unicode", lambda s, *a, **k: s), (T, "_clean_re", clean), (T, "base64", FakeB64),
                  (B, "_b32decode", _m_b32decode), (B, "str", str_)):
         for case, e in forms.items():
             text = e.decode("latin-1") if isinstance(e, SBytes) else e.decode("latin-1")
             text = SStr.lift(text)
-            for style in ("plain", "dash4", "space", "mixed") + (("pad",) if fmt == "base32" else ()):
-                t = _decorate(text, style)
+            for style in ("plain", "dash4", "space", "mixed", "grouped-dash", "grouped-space") + (("pad",) if fmt == "base32" else ()):
+                if style.startswith("grouped"):
+                    # what pretty_key() prints: the real group_string() on the symbolic key text (its str.join goes through the hook)
+                    sep = "-" if style.endswith("dash") else " "
+                    t = SStr.lift(grouper(text, sep))
+                    if len(t.c) < len(text.c):
+                        return _kviol(n, fmt, "group_string() (pretty_key) of a %d-character key text has only %d characters" % (len(text.c), len(t.c)))
+                else:
+                    t = _decorate(text, style)
                 paths = explore(lambda: T._decode_bytes(t, fmt), max_paths=64)
                 for p in paths:
                     if p.exc is not None:
@@ -430,8 +439,11 @@ def replay_key(n, fmt, key=None):
             if t.key != k or T.TOTP(key=k, format="raw").generate(1000).token != t.generate(1000).token:
                 return "TOTP(key=%r) denotes a different key" % (forms[3],)
             if T._decode_bytes(t.base32_key, "base32") != k or T._decode_bytes(t.hex_key, "hex") != k \
-                    or T._decode_bytes(t.pretty_key(), "base32") != k:
+                    or T._decode_bytes(t.pretty_key(), "base32") != k or T._decode_bytes(t.pretty_key(format="hex", sep=" "), "hex") != k:
                 return "base32_key/hex_key/pretty_key do not denote the key"
+        for sep in ("-", " "):
+            if T._decode_bytes(T.group_string(txt, sep), fmt) != k:
+                return "group_string(%r, %r) = %r does not denote the key" % (txt, sep, T.group_string(txt, sep))
     return False
 
 
@@ -459,7 +471,7 @@ def run(tier, seed, t0, only=None):
         functions=["TOTP._generate", "TOTP.generate", "TOTP.normalize_time", "TOTP._time_to_counter", "TOTP._counter_to_time",
                    "TotpToken.start_time/expire_time/_as_tuple", "totp._decode_bytes", "passlib.utils.binary.b32decode"],
         bounds="digest: all contents of 20/32/64 bytes; digits 6..10; time -100..2^41 and period 1..3600 symbolic; "
-               "keys of %s bytes (all contents) in base32/hex, 3 letter cases x 4-5 decoration styles" % sizes,
+               "keys of %s bytes (all contents) in base32/hex, 3 letter cases x 6-7 decoration styles incl. the real group_string() of pretty_key()" % sizes,
         stubs=["keyed HMAC -> arbitrary digest bytes (HMAC itself: C11)", "_pack_uint64 -> recorder, _unpack_uint32 -> big-endian "
                "concat (real packers checked on fixed values)", "printf model for \"%0*d\" (validated against CPython every run)",
                "_clean_re.sub -> model of r'\\s|[-=]' (pattern text checked; strip set computed from the real regex)",
